@@ -54,7 +54,10 @@ def _get_basilisp_bytecode(
 ) -> list[types.CodeType]:
     """Unmarshal the bytes from a Basilisp bytecode cache file, validating the
     file header prior to returning. If the file header does not match, throw
-    an exception."""
+    an exception.
+
+    The header stores the low 32 bits of the source modification time and size
+    (see `_w_long`), so only those bits are compared."""
     exc_details = {"name": fullname}
     magic = cache_data[:4]
     raw_timestamp = cache_data[4:8]
@@ -70,7 +73,7 @@ def _get_basilisp_bytecode(
         message = f"Reached EOF while reading timestamp in {fullname}"
         logger.debug(message)
         raise EOFError(message)
-    elif _r_long(raw_timestamp) != mtime:
+    elif _r_long(raw_timestamp) != mtime & 0xFFFFFFFF:
         message = f"Non-matching timestamp ({_r_long(raw_timestamp)}) in {fullname} bytecode cache; expected {mtime}"
         logger.debug(message)
         raise ImportError(message, **exc_details)
@@ -78,7 +81,7 @@ def _get_basilisp_bytecode(
         message = f"Reached EOF while reading size of source in {fullname}"
         logger.debug(message)
         raise EOFError(message)
-    elif _r_long(raw_size) != source_size:
+    elif _r_long(raw_size) != source_size & 0xFFFFFFFF:
         message = f"Non-matching filesize ({_r_long(raw_size)}) in {fullname} bytecode cache; expected {source_size}"
         logger.debug(message)
         raise ImportError(message, **exc_details)
